@@ -828,7 +828,7 @@ fn int_arith(v: &mut Vec<Op>) {
     entry!(v, "int", S, 0, "-IBig", U0.a(2), |c| -c.ia(), |_d| ret());
     entry!(v, "int", S, 0, "-&IBig", U0.a(2), |c| -&c.ia(), |_d| ret());
     entry!(v, "int", S, 0, "IBig::abs", U0.a(2), |c| c.ia().abs(), |_d| ret());
-    entry!(v, "int", S, 0, "&IBig::abs", U0.a(2), |c| (&c.ia()).abs(), |_d| ret());
+    entry!(v, "int", S, 0, "&IBig::abs", U0.a(2), |c| Abs::abs(&c.ia()), |_d| ret());
     entry!(v, "int", S, 0, "IBig::unsigned_abs", U0.a(2), |c| c.ia().unsigned_abs(), |_d| ret());
     entry!(v, "int", S, 0, "IBig::signum", U0.a(2), |c| c.ia().signum(), |_d| ret());
     entry!(v, "int", S, 0, "IBig::sign", U0.a(2), |c| c.ia().sign(), |_d| ret());
